@@ -19,6 +19,8 @@ fn concrete(schema: &str, path: &str, kind: &str, free: &Value) -> Value {
     let empty = EMPTY_STRINGS.with(std::cell::Cell::get);
     match (path, kind) {
         ("api", _) => json!({"s": "0.10"}),
+        // (ids the grammar admits although they look odd: any of [[:alnum:]./-]+ but the three reserved words)
+        (p, _) if (p.ends_with("buildpack.id") || p.ends_with("group[].id")) && empty => json!({"s": if p.contains("group") { "./-" } else { "-dash/first." }}),
         (p, _) if p.ends_with("buildpack.id") || p.ends_with("group[].id") => json!({"s": "verif/schema-bp"}),
         (p, _) if p.ends_with(".version") && !p.contains("distros") => json!({"s": "1.2.3"}),
         ("buildpack.sbom-formats", _) => json!({"a": [{"s": "application/vnd.cyclonedx+json"}, {"s": "application/spdx+json"}]}),
